@@ -103,6 +103,9 @@ MATRIX = {
     # two independent defects: which one is reported may depend on the order, its class may not
     "self-containing-type-next-to-a-kind-clash": ("let f x = f;\nlet a = num & {};\nres / on get -> <a>;\n", 1),
     "self-application-next-to-a-kind-clash": ("let a = {} & 7;\nlet w x = x x;\nlet b = w {};\nres / on get -> <a>;\n", 1),
+    # two independent recursive groups, one of them ill-formed: rejected whichever comes first
+    "ill-formed-recursion-next-to-a-recursive-schema": ("let f x = f x;\nlet a = { 'p? a };\nres / on get -> <a>;\n", 1),
+    "recursive-uri-next-to-a-recursive-schema": ("let u = concat /u u;\nlet a = { 'x? a };\nlet b = [b];\nres / on get -> <a>;\n", 1),
     "chain-of-aliases": ("let a = b;\nlet b = c;\nlet c = { 'n num };\nres / on get -> <a & {}>;\n", 0),
     "use-before-def": ("res / on get -> <a>;\nlet a = {};\n", 0),
     "function-ok": ("let f x = [x];\nres / on get -> <f num>;\n", 0),
@@ -268,6 +271,22 @@ def check():
 
     # ---------------------------------------------------------------- C. union / reduce steps
     union_steps(o, L, M, bad)
+
+    # ---------------------------------------------------------------- C'. the verdict on recursion does not depend on which group is met first
+    try:
+        import props.c09 as c09
+        cb = []
+
+        def cyc_structural(name, ok, why=None):
+            o.query(name, "mirsym/structural", "unsat" if ok else "violated", 0)
+            if not ok:
+                cb.append(why or name)
+            return ok
+        c09.cycles_lemmas(o, L, S, M, E, M.one(r"^(typecheck::)?cycles_check$"), cyc_structural, lambda name, model: cb.append(name))
+        for x in cb:
+            bad.append(("cycles", x, None))
+    except KeyError as exn:
+        o.inconc(str(exn)[:160])
 
     # ---------------------------------------------------------------- D. type variables are fresh, per module
     fresh_variable_lemmas(o, L, S, M, E, bad)
